@@ -408,7 +408,7 @@ func typeConverter(t dsl.Type, contextNamespace string, namedType *dsl.NamedType
 			}
 
 			unionClassName, typeParameters := common.UnionClassName(t)
-			if namedType != nil {
+			if common.IsUnionOfNamedType(namedType, t) {
 				unionClassName = namedType.Name
 				if namedType.Namespace != contextNamespace {
 					unionClassName = fmt.Sprintf("%s.%s", common.NamespaceIdentifierName(namedType.Namespace), unionClassName)
